@@ -2232,11 +2232,16 @@ impl TransactionBuilder {
                         let current = self.fee.clone().unwrap_or(new_fee);
                         if required > current {
                             let missing = required.checked_sub(&current)?;
-                            let last = self.outputs.0.last_mut().unwrap();
-                            let coin = last.amount.coin().checked_sub(&missing).map_err(|_| {
-                                JsError::from_str("Not enough ADA leftover to cover the fee of the change output")
-                            })?;
+                            let not_enough = || {
+                                JsError::from_str("Not enough ADA leftover to include non-ADA assets in a change address")
+                            };
+                            let mut last = self.outputs.0.last().unwrap().clone();
+                            let coin = last.amount.coin().checked_sub(&missing).map_err(|_| not_enough())?;
                             last.amount.set_coin(&coin);
+                            if coin < min_ada_for_output(&last, &utxo_cost)? {
+                                return Err(not_enough());
+                            }
+                            *self.outputs.0.last_mut().unwrap() = last;
                             self.set_final_fee(required);
                         }
                     }
